@@ -4,13 +4,18 @@
   Statements + final proofs.  Models: Model/Arguments.lean (`ArgumentsGenerator`), Model/ClientMethod.lean
   (`add_method`, `get_variable_names`), Model/InputFields.lean (attributes of generated input classes),
   Model/ArgValues.lean (caller values, what they mean), Model/ArgSend.lean (the emitted method body and
-  the composition with the base client), Model/BaseClient.lean (`_convert_*`, shared with C11).
+  the composition with the base client), Model/BaseClient.lean (`_convert_*`, shared with C11),
+  Model/ArgConstruct.lean (class-level defaults of the generated input classes per schema SOURCE —
+  `parse_input_field_default_value(node=field.ast_node, …)` — and where the caller's input-model
+  instances come from).
   Reference semantics (modelled, validated, not verified): Spec/PyCall.lean (CPython def / call binding),
-  Spec/PydLog.lean (pydantic `model_dump(by_alias, exclude_unset)`), Spec/Coerce.lean (graphql-core
-  variable coercion).  Lemmas: Proofs/Coerce.lean, Proofs/ArgValues.lean, Proofs/ArgCall.lean,
-  Proofs/ArgDeliver.lean.
+  Spec/PydLog.lean (pydantic `model_dump(by_alias, exclude_unset)`), Spec/PydInit.lean (pydantic
+  `Cls(**kw)` with `populate_by_name`), Spec/Coerce.lean (graphql-core variable coercion).
+  Lemmas: Proofs/Coerce.lean, Proofs/ArgValues.lean, Proofs/ArgCall.lean, Proofs/ArgDeliver.lean,
+  Proofs/ArgConstruct.lean.
 
-  Quantification: every configuration (schema view, custom-scalar section, snake-casing on/off,
+  Quantification: every configuration (schema view, schema source `schema_path` / `remote_schema_url`,
+  custom-scalar section, snake-casing on/off,
   sync/async), every list of variable definitions (any wrapper nesting, defaults, any names), every
   user `serialize` function (`UserFns`), every caller assignment — value trees of unbounded size and
   depth: scalars, enum members, custom-scalar values, lists, (nested, recursive) input-model
@@ -21,18 +26,27 @@
   returns `intendedVars`: per given variable the caller's value under the original names (enum
   members by name, custom scalars as `serialize(value)` when configured), unset input fields /
   omitted variables replaced by the schema's default where one is declared and absent otherwise.
+  "every call … with schema-valid Python arguments (… nested generated input models …)" includes that
+  the schema-valid value EXISTS as a Python argument: every instance in it is what its generated class
+  returns for some keywords (`ConstructibleArgs`; round 3 — until then the trees were taken as given
+  and the class-level defaults were compared by the correspondence only).
 
-  The property is FALSE as written (`C03_full_false`): eight findings, one decidable trigger each
-  (Model/ArgFindings.lean).  Outside the triggers it is proved (`C03_partial`).
+  The property is FALSE as written (`C03_full_false`): nine findings, one decidable trigger each
+  (Model/ArgFindings.lean; Model/ArgConstruct.lean for C03-F9).  Outside the triggers it is proved
+  (`C03_partial`).  Named narrowing `Proved_03` (not a finding of C03; the constructibility conjunct
+  only): no two attributes of one generated input class share a name or alias — the complement is the
+  region of the naming findings C18-F1…F5, F7 = C06-F7, which this check does not generate.
 -/
 import AriadneModel.Proofs.ArgDeliver
+import AriadneModel.Proofs.ArgConstruct
+import AriadneModel.Proofs.ArgConstructEx
 
 set_option linter.unusedSimpArgs false
 set_option linter.unusedVariables false
 
 namespace Ariadne.C03
 open Ariadne Ariadne.Scalars Ariadne.Coerce Ariadne.ArgValues Ariadne.ArgSend Ariadne.Arguments Ariadne.ClientMethod
-open Ariadne.ArgFindings Ariadne.ArgProofs
+open Ariadne.ArgFindings Ariadne.ArgProofs Ariadne.ArgConstruct Ariadne.PydInit Ariadne.ArgProofs.F9
 open Ariadne.BaseClient (PV)
 
 /-! ## 0. Vocabulary of the statements -/
@@ -90,13 +104,28 @@ def RequiredEnforced (cfg : Cfg) (fns : UserFns) (async : Bool) (opName opText :
   ∀ d v, (d, v) ∈ defs.zip a → isNonNull d.type = true → v.isUnset = true →
     ∃ msg, send (envOf cfg) fns async opName opText defs a = .error (.python (.typeError msg))
 
+/-- the value-level trigger (C03-F9 = C06-F8 = C19-F1 seen from a call): the schema was obtained by
+    introspection and an instance among the arguments leaves unset a non-null field that has a schema
+    default -/
+def Supported_03v (src : Source) (cfg : Cfg) (a : List AV) : Prop :=
+  ¬ (trigDefaultLostIntro src cfg a = true)
+
+instance (src : Source) (cfg : Cfg) (a : List AV) : Decidable (Supported_03v src cfg a) := by
+  unfold Supported_03v; infer_instance
+
+/-- named narrowing of the constructibility theorems (not a finding of C03: the complement is the region
+    of C18-F1…F5, F7 = C06-F7, two fields of one input type sharing a Python name) -/
+def Proved_03 (cfg : Cfg) : Prop := ClassNamesClean cfg
+
 /-- C03 at full strength, in the words of properties.jsonl: for every operation and every call with
-    schema-valid arguments the variables are accepted and delivered, omitted/unset are absent, None is
-    null, and a required variable cannot be omitted. -/
+    schema-valid arguments — which exist as Python values whichever way the schema was obtained — the
+    variables are accepted and delivered, omitted/unset are absent, None is null, and a required
+    variable cannot be omitted. -/
 def C03_full : Prop :=
-  ∀ (cfg : Cfg) (fns : UserFns) (async : Bool) (opName opText : String) (defs : List VarDecl) (a : List AV),
+  ∀ (src : Source) (cfg : Cfg) (fns : UserFns) (async : Bool) (opName opText : String) (defs : List VarDecl) (a : List AV),
     Valid_03 cfg fns defs →
-      (argsValid cfg (idefs defs) a = true → Delivered cfg fns async opName opText defs a) ∧
+      (argsValid cfg (idefs defs) a = true →
+        ConstructibleArgs src cfg a ∧ Delivered cfg fns async opName opText defs a) ∧
       (defs.length = a.length → objsOK fns a → RequiredEnforced cfg fns async opName opText defs a)
 
 /-! ## 1. The theorems (must tier) -/
@@ -196,13 +225,67 @@ theorem value_delivered (cfg : Cfg) (fns : UserFns) (hy : Hyp cfg fns) (inh : Bo
   obtain ⟨p, calls, hd, _, _, w, hj, hco⟩ := dump_good cfg fns hy inh t v ht hc
   exact ⟨p, calls, w, hd, hj, hco⟩
 
+/-! ## 1b. Where the caller's input-model arguments come from (round 3)
+
+  The generated class per schema source, pydantic's `__init__`, and which schema-valid values exist. -/
+
+/-- the class-level default decides: an attribute of the class generated from a `src` schema demands
+    a value exactly when the field is non-null and — for the SDL source — declares no default;
+    a class generated from an introspected schema demands every non-null field (the default is read
+    from `field.ast_node`, which introspection does not provide) -/
+theorem class_field_required (src : Source) (cfg : Cfg) (f : IField) :
+    (classField src cfg f).required =
+      (match src with
+       | .sdl => f.default.isNone && f.type.nonNull
+       | .intro => f.type.nonNull) := classField_required src cfg f
+
+/-- dump key and annotation of the attribute do not depend on the source (so `send` does not) -/
+theorem class_field_key (src : Source) (cfg : Cfg) (f : IField) :
+    (classField src cfg f).fieldKey = fieldKeyOf cfg f := classField_fieldKey src cfg f
+
+/-- pydantic's `__init__` on ANY class whose lookup names are pairwise distinct: the instances it can
+    return are exactly those that fit the class (keys/annotations of the class, accepted values in
+    the set fields, a class-level default behind every unset field) -/
+theorem instance_constructible_iff (cs : List InitField) (inst : List (FieldKey × AV))
+    (hnd : (lookupNamesOf cs).Nodup) :
+    (∃ kw, initModel cs kw = .ok inst) ↔ fitsClass cs inst = true := init_iff_fits cs inst hnd
+
+/-- … and the keywords that build it may use the attribute name or the alias, field by field
+    (`populate_by_name=True`) -/
+theorem keywords_build_instance (bs : List Bool) (cs : List InitField) (inst : List (FieldKey × AV))
+    (hnd : (lookupNamesOf cs).Nodup) (hf : fitsClass cs inst = true) :
+    initModel cs (kwFor bs cs inst) = .ok inst :=
+  (initModel_ok_iff cs _ inst).mpr (init_builds_fields bs cs inst hnd hf)
+
+/-- a required attribute that the keywords do not mention: `ValidationError` (missing), wherever
+    the attribute stands in the class and whatever else is passed -/
+theorem required_field_cannot_be_left_out (cs : List InitField) (kw : List (String × AV)) (c : InitField)
+    (hc : c ∈ cs) (hr : c.required = true) (hl : lookupField c kw = none) :
+    ∃ e, initModel cs kw = .error e ∧ c.key ∈ e.missing := init_required_left_out cs kw c hc hr hl
+
+/-- `args_constructible`: a schema-valid assignment exists as Python arguments exactly when it is
+    outside the trigger of C03-F9 (the trigger is exact: inside it the value can NOT be built) -/
+theorem args_constructible (src : Source) (cfg : Cfg) (defs : List VarDecl) (a : List AV)
+    (hp : Proved_03 cfg) (ha : argsValid cfg (idefs defs) a = true) :
+    ConstructibleArgs src cfg a ↔ Supported_03v src cfg a := by
+  rw [args_constructible_iff src cfg hp (idefs defs) a ha]
+  simp [Supported_03v]
+
+/-- for a schema read from SDL every schema-valid assignment can be built -/
+theorem sdl_args_constructible (cfg : Cfg) (defs : List VarDecl) (a : List AV)
+    (hp : Proved_03 cfg) (ha : argsValid cfg (idefs defs) a = true) : ConstructibleArgs .sdl cfg a :=
+  (args_constructible .sdl cfg defs a hp ha).mpr (by simp [Supported_03v, trig_sdl])
+
 /-! ## 2. The property on the complement of the triggers -/
 
-theorem C03_partial (cfg : Cfg) (fns : UserFns) (async : Bool) (opName opText : String)
-    (defs : List VarDecl) (a : List AV) (hv : Valid_03 cfg fns defs) (hs : Supported_03 cfg defs) :
-    (argsValid cfg (idefs defs) a = true → Delivered cfg fns async opName opText defs a) ∧
+theorem C03_partial (src : Source) (cfg : Cfg) (fns : UserFns) (async : Bool) (opName opText : String)
+    (defs : List VarDecl) (a : List AV) (hv : Valid_03 cfg fns defs) (hp : Proved_03 cfg)
+    (hs : Supported_03 cfg defs) (hsv : Supported_03v src cfg a) :
+    (argsValid cfg (idefs defs) a = true →
+      ConstructibleArgs src cfg a ∧ Delivered cfg fns async opName opText defs a) ∧
     (defs.length = a.length → objsOK fns a → RequiredEnforced cfg fns async opName opText defs a) := by
-  refine ⟨fun ha => ?_, fun hlen hobj => required_cannot_be_omitted cfg fns async opName opText defs a hv hs hlen hobj⟩
+  refine ⟨fun ha => ⟨(args_constructible src cfg defs a hp ha).mpr hsv, ?_⟩,
+    fun hlen hobj => required_cannot_be_omitted cfg fns async opName opText defs a hv hs hlen hobj⟩
   obtain ⟨req, h1, _, h3, h4⟩ := send_delivers cfg fns hv.hyp defs a opName opText "Client" async hv.inputTypes hv.varNames
     ((supported_iff cfg defs).mp hs) ha
   obtain ⟨k1, k2⟩ := payload_shape cfg fns (idefs defs) a req.variables h3
@@ -337,10 +420,40 @@ example : argsValid scaCfg (idefs f5Defs) [.unset] = true ∧ trigSerializeNulla
 example : argsValid (plainCfg true) (idefs f6Defs) [.int 1] = true ∧ trigShadow (envOf (plainCfg true)) (vdefs f6Defs) = true := by decide
 example : argsValid scaCfg (idefs f7Defs) f7Args = true ∧ trigSerializeList (envOf scaCfg) (vdefs f7Defs) = true := by decide
 
+/-- C03-F9 (witness data and its evaluated facts: Proofs/ArgConstructEx.lean): `input P { limit: Int! = 10,
+    name: String }` obtained by introspection; the caller sets `name` and leaves `limit` to the
+    server-side default -/
+theorem f9_proved : Proved_03 f9Cfg := f9_clean
+
+theorem F9_witness_fails : ¬ ConstructibleArgs .intro f9Cfg [f9Inst .unset] := by
+  intro h
+  exact (args_constructible .intro f9Cfg f9Defs [f9Inst .unset] f9_proved f9_valid_unset).mp h f9_trig_unset
+
+/-- the witness is a schema-valid value (the server would fill in `limit = 10`), inside the trigger;
+    the same value is constructible when the schema is read from SDL, and in the introspection
+    source as soon as `limit` is set -/
+example : argsValid f9Cfg (idefs f9Defs) [f9Inst .unset] = true ∧ trigDefaultLostIntro .intro f9Cfg [f9Inst .unset] = true :=
+  ⟨f9_valid_unset, f9_trig_unset⟩
+example : J.beqKvs (intendedVars f9Cfg wFns (idefs f9Defs) [f9Inst .unset]) [("p", .obj [("limit", .num 10 0), ("name", .str "n")])] = true := by decide
+example : ConstructibleArgs .sdl f9Cfg [f9Inst .unset] := sdl_args_constructible f9Cfg f9Defs _ f9_proved f9_valid_unset
+example : ConstructibleArgs .intro f9Cfg [f9Inst (.int 3)] :=
+  (args_constructible .intro f9Cfg f9Defs _ f9_proved f9_valid_set).mpr (by simp [Supported_03v, f9_trig_set])
+/-- … built through the class: the introspection class demands `limit`, the SDL class does not -/
+example : (match initModel (classFields .intro f9Cfg "P") [("name", .str "n")] with
+    | .error e => e.missing == ["limit"] && e.invalid.isEmpty
+    | .ok _ => false) = true := by decide
+example : (initModel (classFields .sdl f9Cfg "P") [("name", .str "n")]).toOption.isSome = true := by decide
+
 theorem C03_full_false : ¬ C03_full := by
   intro h
   have hv : Valid_03 (plainCfg true) wFns f2Defs := plain_valid true f2Defs (by decide) (by decide)
-  exact F2_witness_fails ((h (plainCfg true) wFns true "Q" "query Q" f2Defs [.int 1] hv).1 (by decide))
+  exact F2_witness_fails ((h .sdl (plainCfg true) wFns true "Q" "query Q" f2Defs [.int 1] hv).1 (by decide)).2
+
+/-- … and by the construction side alone (C03-F9) -/
+theorem C03_full_false_by_F9 : ¬ C03_full := by
+  intro h
+  have hv : Valid_03 f9Cfg wFns f9Defs := ⟨f9_hyp wFns (by intro f j; rfl), f9_inputTypes, f9_varNames⟩
+  exact F9_witness_fails ((h .intro f9Cfg wFns true "Q" "query Q" f9Defs [f9Inst .unset] hv).1 f9_valid_unset).1
 
 /-! ## 4. Non-vacuity: a non-trivial input inside the theorem region -/
 
@@ -388,5 +501,27 @@ theorem ex_valid : Valid_03 exCfg wFns exDefs := by
 
 example : argsValid exCfg (idefs exDefs) exArgs = true ∧ Supported_03 exCfg exDefs := by decide
 example : deliveredB exCfg wFns false "Q" "query Q" exDefs exArgs = true := by decide
+
+/-- the same input satisfies the hypotheses of the constructibility theorems in BOTH sources (fields
+    named like a keyword, snake-cased, recursive; `fooBar` has a default but is nullable) -/
+theorem ex_clean : Proved_03 exCfg := by
+  intro n fs h
+  by_cases e1 : ("ScA" == n) = true
+  · simp [exCfg, exSchema, ISchema.get?, List.find?, e1] at h
+  · by_cases e2 : ("Color" == n) = true
+    · simp [exCfg, exSchema, ISchema.get?, List.find?, e1, e2] at h
+    · by_cases e3 : ("Filter" == n) = true
+      · simp [exCfg, exSchema, ISchema.get?, List.find?, e1, e2, e3] at h
+        subst h; decide
+      · simp [exCfg, exSchema, ISchema.get?, List.find?, e1, e2, e3] at h
+
+example : Supported_03v .intro exCfg exArgs ∧ Supported_03v .sdl exCfg exArgs := by
+  constructor <;> (simp only [Supported_03v]; decide)
+example : ConstructibleArgs .intro exCfg exArgs :=
+  (C03_partial .intro exCfg wFns false "Q" "query Q" exDefs exArgs ex_valid ex_clean (by decide)
+    (by simp only [Supported_03v]; decide)).1 (by decide) |>.1
+/-- the outer `Filter` of `exArgs`, written by the caller with `class_` by attribute name and the
+    others by alias, is exactly what the class returns -/
+example : (instances (exArgs.headD .none)).length = 2 := by decide
 
 end Ariadne.C03
